@@ -187,7 +187,11 @@ type State struct {
 func (s *State) Clone() *State {
 	clone := *s
 	clone.DashPattern = slices.Clone(s.DashPattern)
-	clone.ClipPaths = slices.Clone(s.ClipPaths)
+	// The clip-path list is append-only, so the clone can share the entries:
+	// with the capacity clamped to the length, an append on either copy
+	// allocates a new array.  (A full copy per q makes nested q operators
+	// behind W n cost quadratic memory.)
+	clone.ClipPaths = s.ClipPaths[:len(s.ClipPaths):len(s.ClipPaths)]
 	return &clone
 }
 
